@@ -151,9 +151,10 @@ pub(crate) fn add_kc_output(
         Entry::Occupied(o) => o.into_mut(),
         Entry::Vacant(v) => v.insert(vec![]),
     };
-    if !outputs.contains(&osc) {
-        outputs.push(osc);
-    }
+    // The repeat handler walks this list from the back and repeats the first key that is down. The
+    // key itself comes after the outputs of its overrides: when an override is active the key
+    // itself is not down; when none is, an override output that some other key holds down must not
+    // be taken for this key's output.
     for ov_osc in overrides
         .output_non_mods_for_input_non_mod(osc)
         .iter()
@@ -162,5 +163,8 @@ pub(crate) fn add_kc_output(
         if !outputs.contains(&ov_osc) {
             outputs.push(ov_osc);
         }
+    }
+    if !outputs.contains(&osc) {
+        outputs.push(osc);
     }
 }
